@@ -3,9 +3,11 @@ package rules
 import (
 	"fmt"
 	"go/ast"
+	"go/constant"
 	"go/token"
 	"go/types"
 	"sort"
+	"strconv"
 	"strings"
 
 	"verif/sa/core"
@@ -66,6 +68,9 @@ func ruleTB9a(pkg, fn string, floor int) Rule {
 				return
 			}
 			info := f.Info()
+			if c.tb9aByPaths(rr, pkg, f, ops) {
+				return
+			}
 			produced := map[string]bool{}
 			// the operator variable: a named result, or a local that is returned or passed to emit
 			opVars := map[types.Object]bool{}
@@ -218,6 +223,92 @@ func ruleTB9a(pkg, fn string, floor int) Rule {
 				rr.Bad(f, f.Name+"|never "+k, f.Pos(), fmt.Sprintf("ops names token %s (%q) but the scanner never produces it", k, ops[k]))
 			}
 		}}
+}
+
+// tb9aByPaths decides TB9a from the enumerated paths of the scanner (see
+// scanpaths.go): the relation between consumed text and token is read off the
+// paths whatever the scanner's shape (nested switches, helpers handed the
+// continuation characters, constant tables).  It returns false - and reports
+// nothing - when the walk leaves its fragment or cannot name a token; the
+// syntactic rule then decides.
+func (c *Ctx) tb9aByPaths(rr *core.RuleResult, pkg string, f *core.Func, ops map[string]string) bool {
+	paths, why := c.scanPaths(pkg, f)
+	if why != "" || len(paths) == 0 {
+		rr.Note("%s: path enumeration not applicable (%s); decided syntactically", f.Name, why)
+		return false
+	}
+	returnsToken := false
+	if sig, ok := f.Obj.Type().(*types.Signature); ok && sig.Results().Len() >= 1 {
+		if b, ok := sig.Results().At(0).Type().Underlying().(*types.Basic); ok && b.Info()&types.IsInteger != 0 {
+			returnsToken = true
+		}
+	}
+	sum := summariseScan(paths, returnsToken)
+	if _, unnamed := sum[-1]; unnamed || len(sum) == 0 {
+		rr.Note("%s: path enumeration could not name the token on some path; decided syntactically", f.Name)
+		return false
+	}
+	// token names by value
+	scope := c.P.Pkgs[pkg].Types.Scope()
+	byValue := map[int64]string{}
+	for name := range ops {
+		if len(name) >= 3 && name[0] == '\'' {
+			if r, _, _, err := strconv.UnquoteChar(name[1:len(name)-1], '\''); err == nil {
+				byValue[int64(r)] = name
+			}
+			continue
+		}
+		if k, ok := scope.Lookup(name).(*types.Const); ok {
+			if v, exact := constant.Int64Val(k.Val()); exact {
+				byValue[v] = name
+			}
+		}
+	}
+	if len(byValue) != len(ops) {
+		rr.Note("%s: %d of %d token names of the ops table resolve to constants; decided syntactically", f.Name, len(byValue), len(ops))
+		return false
+	}
+	produced := map[string]bool{}
+	var vals []int64
+	for v := range sum {
+		vals = append(vals, v)
+	}
+	sort.Slice(vals, func(i, j int) bool { return vals[i] < vals[j] })
+	for _, v := range vals {
+		t := sum[v]
+		name, known := byValue[v]
+		if !known {
+			if v > 0 {
+				rr.Bad(f, fmt.Sprintf("%s|op=%d", f.Name, v), f.Pos(), fmt.Sprintf("token value %d (produced after matching %q) has no spelling in the ops table", v, sortedTexts(t.texts)))
+			}
+			continue
+		}
+		produced[name] = true
+		key := fmt.Sprintf("%s|op=%s", f.Name, name)
+		want := ops[name]
+		var wrong []string
+		for _, txt := range sortedTexts(t.texts) {
+			if txt != want {
+				wrong = append(wrong, txt)
+			}
+		}
+		if len(wrong) == 0 {
+			rr.OK(f, key, f.Pos(), "equal", fmt.Sprintf("%q on every path that names it (%d paths enumerated)", want, len(paths)))
+		} else {
+			rr.Bad(f, key, f.Pos(), fmt.Sprintf("token %s is produced after matching %q but ops spells it %q: the operator is tokenised as a different one", name, wrong[0], want))
+		}
+	}
+	var missing []string
+	for k := range ops {
+		if !produced[k] {
+			missing = append(missing, k)
+		}
+	}
+	sort.Strings(missing)
+	for _, k := range missing {
+		rr.Bad(f, f.Name+"|never "+k, f.Pos(), fmt.Sprintf("ops names token %s (%q) but the scanner never produces it", k, ops[k]))
+	}
+	return true
 }
 
 // goOpFor maps a C operator spelling to the Go token implementing it.
